@@ -95,6 +95,32 @@ def plumbM5 (opts : List BOpt) : TOpts :=
     if hasMarshalerFor ms dm then o else { o with marshalers := some (ms ++ [dm]) }
   | none => o
 
+/-! ### what `Bind` looks at: the request as far as the negotiation is concerned -/
+
+/-- The `transcoding.HTTPRequest` handed to `Bind`, reduced to what could matter for the choice of marshalers: the
+    HTTP method of the raw request, its Content-Type lines (as `mime.ParseMediaType` reads them), its Accept lines,
+    and the streaming kind of the bound method. -/
+structure NegReq where
+  method : Bytes
+  pm : List (Option Bytes)
+  accept : List Bytes
+  cs : Bool
+  ss : Bool
+  deriving DecidableEq, Repr
+
+/-- `StandardTranscoder.Bind` on such a request: `pickRequestMarshaler` and `pickResponseMarshaler` read
+    `req.RawRequest.Header` only (regenerated fact `c10NegotiationReads`), the method is not looked at. -/
+def bindReq (r : Registry) (q : NegReq) : Except RawErr Bound := bind r q.pm q.accept q.cs q.ss
+
+def methodGET : Bytes := ascii "GET"
+def methodHEAD : Bytes := ascii "HEAD"
+
+/-- the seeded variant C10-m8: `pickRequestMarshaler` returns the default marshaler for GET and HEAD whatever the
+    Content-Type says ("bodiless requests have nothing for a Content-Type to describe") -/
+def bindReqM8 (r : Registry) (q : NegReq) : Except RawErr Bound :=
+  if q.method == methodGET || q.method == methodHEAD then bind r [] q.accept q.cs q.ss
+  else bind r q.pm q.accept q.cs q.ss
+
 /-- a custom text codec for the witnesses -/
 def m5Custom : Marshaler := { mime := [116], streams := false, id := 1 }
 /-- the configuration that exposes C10-m5: a custom default marshaler, no WithMarshalers -/
